@@ -113,6 +113,11 @@ MCNext == Begin \/ DoOpen \/ DoClose \/ DoEof \/ DoText \/ DoIgnored \/ Fault \/
 
 MCSpec == MCInit /\ [][MCNext]_vars
 
+\* with a fair environment (the reader keeps delivering events; every input is finite) every call returns:
+\* the design-level half of "does not fail to terminate" (C07)
+MCFairSpec == MCSpec /\ WF_vars(MCNext)
+EveryCallReturns == [](phase = "reading" => <>(phase = "returned"))
+
 -----------------------------------------------------------------------------
 \* design-level half of C07/C08: in every reading state every kind of event has a successor
 \* (no state in which the machine is stuck), and the only terminal states are "returned"
